@@ -307,7 +307,25 @@ def replay_bin():
     return os.path.join(VERIF, 'out', 'replay-target', 'debug', 'verif_replay')
 
 
+_REPLAY_PURGED = [False]
+
+
+def purge_replay():
+    """the replay crate links the real crates by path: drop cargo's records of them (once per
+    process) so that the binary is rebuilt from /repo's current content, not judged fresh by file time"""
+    import glob
+    import shutil
+    if _REPLAY_PURGED[0]:
+        return
+    _REPLAY_PURGED[0] = True
+    base = os.path.join(VERIF, 'out', 'replay-target', 'debug')
+    for name in ('toml', 'toml_edit', 'toml_datetime', 'toml_write', 'serde_spanned', 'verif_replay'):
+        for d in glob.glob(os.path.join(base, '.fingerprint', name + '-*')):
+            shutil.rmtree(d, ignore_errors=True)
+
+
 def build_replay(log=print):
+    purge_replay()
     env = dict(os.environ, CARGO_NET_OFFLINE='true')
     rc, out, err, wall, to = sh(['cargo', 'build', '--offline', '--target-dir',
                                  os.path.join(VERIF, 'out', 'replay-target')], 1200,
